@@ -69,3 +69,8 @@ func specIsUncatchable(x interface{}) bool {
 	}
 	return false
 }
+
+func specIsCompilerSyntaxError(x interface{}) bool {
+	_, ok := x.(*CompilerSyntaxError)
+	return ok
+}
